@@ -670,57 +670,62 @@ def rule_R8(res, prog):
     from sa import cfgutil as cu
     rid = "C15.R8"
     res.rule(rid, "skipped early data: the running total is compared with the limit after the current record was added, tolerated side <= limit")
-    fn = prog.fn("matrixSslDecodeTls13")
-    gf8 = cu.guard_facts(fn)
     n = 0
 
     def counts(x):
         return any(m.get("k") == "bin" and m["op"] == "+=" and (strip(m["l"]) or {}).get("f") == "tls13ReceivedEarlyDataLen" for m in walk(x))
-    for b in fn.blocks:
-        t = b.get("term")
-        if t is None or "c" not in t:
+    # the decoder itself or a helper extracted from it: every library function that touches the running total
+    for fn in sorted(prog.functions.values(), key=lambda f: f.qname):
+        if not fn.blocks or not fn.relfile.startswith("matrixssl/") or "/test/" in fn.relfile:
             continue
-        tx = cu.ftext(t["c"])
-        mm = re.match(r"^\(ssl->tls13ReceivedEarlyDataLen (<=|<|>|>=) ssl->tls13SessionMaxEarlyData\)$", tx)
-        if not mm:
+        if not any(m.get("k") == "mem" and m.get("f") == "tls13ReceivedEarlyDataLen" for b_, l_, m in fn.nodes()):
             continue
-        n += 1
-        esc = cu.escapes(fn, (fn.entry, None), counts, target_expr=lambda y, c=t["c"]: y is c or any(q is c for q in walk(y)))
-        op_ok = mm.group(1) in ("<=", ">")
-        why = []
-        if esc is not None:
-            why.append("the comparison is reached (via lines %s) before the record at hand was added to the total: one more full "
-                       "record than configured is skipped without an alert" % [p_[1] for p_ in esc[-5:-1]])
-        if not op_ok:
-            why.append("the comparison is `%s`: the boundary of the tolerated side is not `total <= limit`" % mm.group(1))
-        f_ = None
-        if why:
-            f_ = Finding(PROP, rid, fn.name, "early-data skip budget compared before counting",
-                         "%s:%s matrixSslDecodeTls13(): %s" % (fn.relfile, t["ln"], "; ".join(why)), file=fn.relfile, line=t["ln"])
-        res.instance(rid, "matrixSslDecodeTls13:%s skip budget judged on the total including the current record" % t["ln"], not why, finding=f_)
-    # the amount counted for a skipped record is never negative: a subtraction from the record length is added only under
-    # a branch fact that the record is longer than what is subtracted
-    for b in fn.blocks:
-        for i, ln, x in cu.block_exprs(b):
-            for m in walk(x):
-                if m.get("k") == "bin" and m["op"] == "+=" and (strip(m["l"]) or {}).get("f") == "tls13ReceivedEarlyDataLen":
-                    r = strip(m["r"])
-                    while r is not None and r.get("k") == "cast":
-                        r = strip(r["e"])
-                    if r is None or not any(q.get("k") == "bin" and q["op"] == "-" for q in walk(r)):
-                        continue
-                    n += 1
-                    facts = gf8.get(b["id"], ())
-                    ok = any((re.match(r"^\(ssl->rec\.len > .*\)$", txt) and tr) or (re.match(r"^\(ssl->rec\.len <= .*\)$", txt) and not tr)
-                             for (txt, tr) in facts)
-                    f_ = None
-                    if not ok:
-                        f_ = Finding(PROP, rid, fn.name, "skipped-record budget can be given back",
-                                     "%s:%s matrixSslDecodeTls13(): tls13ReceivedEarlyDataLen += %s without a branch fact that the record is longer "
-                                     "than what is subtracted: a record shorter than tag + 1 adds a negative amount to the unsigned counter, so "
-                                     "alternating long and short garbage records never reach the configured limit" % (
-                                         fn.relfile, ln, cu.ftext(r)[:50]), file=fn.relfile, line=ln)
-                    res.instance(rid, "matrixSslDecodeTls13:%s amount counted for a skipped record is not negative" % ln, ok, finding=f_)
+        gf8 = cu.guard_facts(fn)
+        for b in fn.blocks:
+            t = b.get("term")
+            if t is None or "c" not in t:
+                continue
+            tx = cu.ftext(t["c"])
+            mm = re.match(r"^\(ssl->tls13ReceivedEarlyDataLen (<=|<|>|>=) ssl->tls13SessionMaxEarlyData\)$", tx)
+            if not mm:
+                continue
+            n += 1
+            esc = cu.escapes(fn, (fn.entry, None), counts, target_expr=lambda y, c=t["c"]: y is c or any(q is c for q in walk(y)))
+            op_ok = mm.group(1) in ("<=", ">")
+            why = []
+            if esc is not None:
+                why.append("the comparison is reached (via lines %s) before the record at hand was added to the total: one more full "
+                           "record than configured is skipped without an alert" % [p_[1] for p_ in esc[-5:-1]])
+            if not op_ok:
+                why.append("the comparison is `%s`: the boundary of the tolerated side is not `total <= limit`" % mm.group(1))
+            f_ = None
+            if why:
+                f_ = Finding(PROP, rid, fn.name, "early-data skip budget compared before counting",
+                             "%s:%s matrixSslDecodeTls13(): %s" % (fn.relfile, t["ln"], "; ".join(why)), file=fn.relfile, line=t["ln"])
+            res.instance(rid, "%s:%s skip budget judged on the total including the current record" % (fn.name, t["ln"]), not why, finding=f_)
+        # the amount counted for a skipped record is never negative: a subtraction from the record length is added only under
+        # a branch fact that the record is longer than what is subtracted
+        for b in fn.blocks:
+            for i, ln, x in cu.block_exprs(b):
+                for m in walk(x):
+                    if m.get("k") == "bin" and m["op"] == "+=" and (strip(m["l"]) or {}).get("f") == "tls13ReceivedEarlyDataLen":
+                        r = strip(m["r"])
+                        while r is not None and r.get("k") == "cast":
+                            r = strip(r["e"])
+                        if r is None or not any(q.get("k") == "bin" and q["op"] == "-" for q in walk(r)):
+                            continue
+                        n += 1
+                        facts = gf8.get(b["id"], ())
+                        ok = any((re.match(r"^\(ssl->rec\.len > .*\)$", txt) and tr) or (re.match(r"^\(ssl->rec\.len <= .*\)$", txt) and not tr)
+                                 for (txt, tr) in facts)
+                        f_ = None
+                        if not ok:
+                            f_ = Finding(PROP, rid, fn.name, "skipped-record budget can be given back",
+                                         "%s:%s matrixSslDecodeTls13(): tls13ReceivedEarlyDataLen += %s without a branch fact that the record is longer "
+                                         "than what is subtracted: a record shorter than tag + 1 adds a negative amount to the unsigned counter, so "
+                                         "alternating long and short garbage records never reach the configured limit" % (
+                                             fn.relfile, ln, cu.ftext(r)[:50]), file=fn.relfile, line=ln)
+                        res.instance(rid, "%s:%s amount counted for a skipped record is not negative" % (fn.name, ln), ok, finding=f_)
     res.floor(rid, 2)
 
 
